@@ -385,6 +385,18 @@ pub fn run(seed: u64, count: usize, maxn: usize, mode: &str, out: &mut impl Writ
             }
         }
     }
+    // many distinct multi-SCC digraphs with several bridge arcs between consecutive
+    // components, each under a single configuration (level All): the SCC-graph bridge
+    // selection and the propagation of bounds through it only show up on such graphs
+    for i in 0..(count * 6) {
+        let n = rng.range(6, 16);
+        let mut g: Graph;
+        loop { let (gg, fam) = rand_digraph(&mut rng, n); if fam == "bridges" || fam == "sccs" { g = gg; break; } }
+        norm_graph(&mut g);
+        let tot = i % 2 == 0;
+        let t = if i % 5 == 0 { rng.range(2, 16) } else { 1 };
+        r.case(out, "bridges1", &g, false, None, "all", tot, t);
+    }
     // random graphs
     for i in 0..count {
         let big = i % 12 == 11;
